@@ -1050,6 +1050,13 @@ func u2iAxioms(roots []*Term) []*Term {
 				x, y := sub(a.Args[0]), sub(a.Args[1])
 				df := IntSub(x, y)
 				out = append(out, Eq(app, Ite(IntLe(y, x), df, IntAdd(df, two(w)))))
+			case a.Op == "bvmul" && len(a.Args) == 2 && (a.Args[0].val != nil || a.Args[1].val != nil):
+				x, c := a.Args[0], a.Args[1]
+				if x.val != nil {
+					x, c = c, x
+				}
+				prod := IntMul(sub(x), IntConst(c.val))
+				out = append(out, Implies(IntLt(prod, two(w)), Eq(app, prod)))
 			case a.Op == "ite":
 				out = append(out, Eq(app, Ite(a.Args[0], sub(a.Args[1]), sub(a.Args[2]))))
 			case strings.HasPrefix(a.Op, "(_ zero_extend"):
